@@ -803,6 +803,10 @@ class QSerialization(DeconstructedSerialization):
         Q.AND: ' & ',
     }
 
+    if hasattr(Q, 'XOR'):
+        # Django >= 4.1
+        child_separators[Q.XOR] = ' ^ '
+
     @classmethod
     def serialize_to_signature(cls, q):
         """Serialize a Q object to JSON-compatible signature data.
@@ -870,8 +874,13 @@ class QSerialization(DeconstructedSerialization):
         elif num_children == 1:
             child = value.children[0]
 
-            result.append('models.Q(%s=%s)' % (child[0],
-                                               serialize_to_python(child[1])))
+            if isinstance(child, Q):
+                # A Q() wrapping a single Q() child.
+                result.append('models.Q(%s)' % serialize_to_python(child))
+            else:
+                result.append(
+                    'models.Q(%s=%s)'
+                    % (child[0], serialize_to_python(child[1])))
         else:
             children = []
 
